@@ -35,10 +35,16 @@ func (p Polynomial) Clone() Polynomial {
 		}
 	}
 
-	return Polynomial{
+	clone := Polynomial{
 		MetaData: p.MetaData,
 		Coeffs:   Coeffs,
 	}
+
+	// big.Float values must not be copied shallowly (the mantissas would be shared)
+	clone.Interval.A = *new(big.Float).Copy(&p.Interval.A)
+	clone.Interval.B = *new(big.Float).Copy(&p.Interval.B)
+
+	return clone
 }
 
 // NewPolynomial creates a new polynomial from the input parameters:
